@@ -82,6 +82,12 @@ impl BRC20ProgEngine {
             }
         }
 
+        // The genesis block can only be the next block, otherwise the deployment below would be
+        // left behind in a block that can never be finalised
+        if genesis_height != self.get_next_block_height()? {
+            return Err("Genesis height is not the next block height".into());
+        }
+
         // Deploy BRC20 Controller contract
         let result = self.add_tx_to_block(
             genesis_timestamp,
